@@ -140,6 +140,7 @@ func (l *limitedBuf) Write(p []byte) (int, error) {
 // shard runs the cases of one shard file, restarting the child when it dies.
 func (r *runner) shard(shard int) error {
 	next := 0 // line number within the shard file
+	idle := 0
 	pos := map[int]int{}
 	for k, id := range r.ids[shard] {
 		pos[id] = k
@@ -181,9 +182,14 @@ func (r *runner) shard(shard int) error {
 			close(lines)
 		}()
 		cur, last, done, killed := -1, -1, false, false
-		pw := 3 * caseWatchdog
+		// backstop for a completely wedged child (the child has its own per-case watchdog); generous,
+		// because on an oversubscribed machine even starting the child can take many seconds
+		pw := 6 * caseWatchdog
 		if r.watchdogMS > 0 {
-			pw = 3 * time.Duration(r.watchdogMS) * time.Millisecond
+			pw = 6 * time.Duration(r.watchdogMS) * time.Millisecond
+		}
+		if pw < 3*time.Minute {
+			pw = 3 * time.Minute
 		}
 		timer := time.NewTimer(pw)
 	loop:
@@ -272,6 +278,9 @@ func (r *runner) shard(shard int) error {
 		if last >= 0 {
 			next = pos[last] + 1
 			continue
+		}
+		if idle++; idle <= 3 {
+			continue // retry: the child died / was killed before it reported anything
 		}
 		return fmt.Errorf("child exited without running a case: %v\n%s", werr, truncate(stderr.String(), 2000))
 	}
@@ -550,13 +559,13 @@ func run(c *core.Ctx) error {
 	}
 	startTLC("cases", core.TLCRun{Module: "ZngFaultCases", Cfg: casesCfg, Keep: []string{"cases.ndjson", "faultpath.json"}, Workers: 6, Deadlock: true, Coverage: true, Timeout: 30 * time.Minute})
 	if c.Quick() {
-		startTLC("live", core.TLCRun{Module: "ZngFault", Cfg: "ZngFault.quicklive.cfg", Workers: 4, Deadlock: true, Coverage: true, Timeout: 5 * time.Minute})
+		startTLC("live", core.TLCRun{Module: "ZngFault", Cfg: "ZngFault.quicklive.cfg", Workers: 4, Deadlock: true, Coverage: true, Timeout: 30 * time.Minute})
 	} else {
 		startTLC("live", core.TLCRun{Module: "ZngFault", Cfg: "ZngFault.thoroughlive.cfg", Workers: 4, Deadlock: true, Coverage: true, Timeout: 30 * time.Minute})
 		startTLC("three", core.TLCRun{Module: "ZngFault", Cfg: "ZngFault.thorough3.cfg", Workers: 4, Deadlock: true, Coverage: true, Timeout: 30 * time.Minute})
 		startTLC("cancel", core.TLCRun{Module: "ZngFault", Cfg: "ZngFault.thoroughcancel.cfg", Workers: 4, Deadlock: true, Coverage: true, Timeout: 30 * time.Minute})
 	}
-	startTLC("detect", core.TLCRun{Module: "AnyDetect", Cfg: "AnyDetect.cfg", Keep: []string{"detect.ndjson", "order.json"}, Workers: 2, Deadlock: true, Coverage: true, Timeout: 5 * time.Minute})
+	startTLC("detect", core.TLCRun{Module: "AnyDetect", Cfg: "AnyDetect.cfg", Keep: []string{"detect.ndjson", "order.json"}, Workers: 2, Deadlock: true, Coverage: true, Timeout: 30 * time.Minute})
 
 	// ---- seeds
 	seeds, err := buildSeeds()
@@ -628,11 +637,10 @@ func run(c *core.Ctx) error {
 			switch s.Format {
 			case "zng":
 				if full {
-					for _, o := range zngOptList {
-						addRead("zng", consumer, o, name, m)
+					for j := 0; j < 4; j++ {
+						addRead("zng", consumer, zngOptList[(h+2*j)%len(zngOptList)], name, m)
 					}
-					addRead("auto", "drain", autoOpts, name, m)
-					addRead("autostream", "drain", autoOpts, name, m)
+					addRead([]string{"auto", "autostream"}[(h/4)%2], "drain", autoOpts, name, m)
 				} else {
 					addRead("zng", consumer, zngOptList[(h+int(c.Seed))%len(zngOptList)], name, m)
 					if (h+int(c.Seed))%4 == 0 {
@@ -641,16 +649,13 @@ func run(c *core.Ctx) error {
 				}
 			case "vng":
 				addRead("vng", consumer, Opts{Validate: true}, name, m)
-				if full || (h+int(c.Seed))%6 == 0 {
+				if (full && h%2 == 0) || (h+int(c.Seed))%6 == 0 {
 					addRead("auto", "drain", autoOpts, name, m)
 				}
 			default:
 				addRead(s.Format, consumer, Opts{}, name, m)
 				if s.Format != "line" {
-					if full {
-						addRead("auto", "drain", autoOpts, name, m)
-						addRead("autostream", "drain", autoOpts, name, m)
-					} else if (h+int(c.Seed))%5 == 0 {
+					if full || (h+int(c.Seed))%5 == 0 {
 						addRead([]string{"auto", "autostream"}[(h/5)%2], "drain", autoOpts, name, m)
 					}
 				}
